@@ -52,15 +52,19 @@ structure Msg where
 
 def Msg.val (m : Msg) : Val := Val.tuple [[(m.tag : Int)], [(m.seq : Int)]]
 
-/-- What a receive source accepts (type-only receive = `any`; a pure filter on the tag = `tag k`). -/
+/-- What a receive source accepts (type-only receive of every message type = `any`; a pure filter on
+the tag = `tag k`; a type-only receive of one message type = `range lo hi`: message types are
+classes of tags). -/
 inductive Filter where
   | any
   | tag (k : Nat)
+  | range (lo hi : Nat)
   deriving DecidableEq, Repr, Inhabited
 
 def Filter.accepts : Filter → Msg → Bool
   | .any, _ => true
   | .tag k, m => m.tag == k
+  | .range lo hi, m => decide (lo ≤ m.tag) && decide (m.tag < hi)
 
 /-- Select sources; `proc r` awaits the process held in register `r`. -/
 inductive Src where
